@@ -9,7 +9,7 @@
    comparison to the caller.  The theorems below say what that returned tag is. *)
 From Coq Require Import List NArith Arith Bool Lia.
 From GmsmVerif Require Import Lib.Outcome SM4.SM4Spec SM4.ModesSpec SM4.ModesProofs SM4.GCMSpec SM4.GCMField SM4.GCMModel
-  SM4.GCMProofs SM4.GCMProofs2 SM4.GCMProofs3.
+  SM4.GCMProofs SM4.GCMProofs2 SM4.GCMProofs3 SM4.ModesModel SM4.GCMMem SM4.GCMMemProofs.
 Import ListNotations.
 Local Open Scope nat_scope.
 
@@ -202,6 +202,30 @@ Theorem C12_stateless : forall E (calls : list gcm_call), gcm_cipher E ->
 Proof. intros E calls [H1 H2] HF. exact (gcm_run_spec E H1 H2 calls HF tt). Qed.
 Print Assumptions C12_stateless.
 
+(* ---- 9. caller memory: K, IV, in, A are slice headers into the caller's heap (arrays with spare capacity) ---------- *)
+(* the appends of GetY0 (J0 = IV || 0^31 1) and GHASH (last blocks, length block) are modelled on the heap with Go's
+   in-place append; every array that exists when Sm4GCM / GCMEncrypt / GCMDecrypt is called - so the whole backing
+   arrays of K, IV, in, A, spare capacity included - is unchanged afterwards, and the results are those of the
+   value-level model on what the slices hold *)
+Theorem C12_caller_memory_untouched : forall E h K IV X A mode,
+  slice_valid h K -> slice_valid h IV -> slice_valid h X -> slice_valid h A ->
+  omap snd (Sm4GCM_mem E h K IV X A mode) = Sm4GCM E (read h K) (read h IV) (read h X) (read h A) mode /\
+  omap snd (GCMEncrypt_mem E h K IV X A) = GCMEncrypt E (read h K) (read h IV) (read h X) (read h A) /\
+  omap snd (GCMDecrypt_mem E h K IV X A) = GCMDecrypt E (read h K) (read h IV) (read h X) (read h A) /\
+  (forall h' r, Sm4GCM_mem E h K IV X A mode = Ok (h', r) \/ GCMEncrypt_mem E h K IV X A = Ok (h', r) \/
+                GCMDecrypt_mem E h K IV X A = Ok (h', r) ->
+     forall a, a < length h -> array h' a = array h a).
+Proof.
+  intros E h K IV X A mode VK VIV VX VA.
+  assert (V : args_valid h K IV X A) by exact (conj VK (conj VIV (conj VX VA))).
+  destruct (Sm4GCM_mem_spec E h K IV X A mode V) as [S1 S2].
+  destruct (GCMEncrypt_mem_spec E h K IV X A V) as [E1 E2].
+  destruct (GCMDecrypt_mem_spec E h K IV X A V) as [D1 D2].
+  split; [exact S1|]. split; [exact E1|]. split; [exact D1|].
+  intros h' r [H|[H|H]] a Ha; [apply (S2 h' r H)|apply (E2 h' r H)|apply (D2 h' r H)]; exact Ha.
+Qed.
+Print Assumptions C12_caller_memory_untouched.
+
 (* ---- non-vacuity: SM4 instances, evaluated ------------------------------------------------------------------------------ *)
 Example C12_example_rfc8998 :
   Sm4GCM sm4_encrypt_block A1_key rfc8998_iv rfc8998_pt rfc8998_aad true = Ok (rfc8998_ct, rfc8998_tag) /\
@@ -232,3 +256,14 @@ Example C12_example_history :
                 mkCall FnGCMDecrypt A1_key rfc8998_iv rfc8998_ct rfc8998_aad]
   = Ok [RPair rfc8998_ct rfc8998_tag; RBlock (E k2 (repeat 0%N 16)); RPair rfc8998_pt rfc8998_tag].
 Proof. vm_compute. reflexivity. Qed.
+
+(* a 12-byte IV with spare capacity behind it (where GetY0 once appended 00 00 00 01), key, A and P in the same heap *)
+Example C12_example_memory :
+  let h := [A1_key; rfc8998_iv ++ [9; 9; 9; 9; 9; 9]%N; rfc8998_pt ++ [8; 8]%N; rfc8998_aad ++ [7]%N] in
+  let K := mkSlice 0 0 16 16 in let IV := mkSlice 1 0 12 18 in let P := mkSlice 2 0 64 66 in let A := mkSlice 3 0 20 21 in
+  slice_valid h K /\ slice_valid h IV /\ slice_valid h P /\ slice_valid h A /\
+  match Sm4GCM_mem sm4_encrypt_block h K IV P A true with
+  | Ok (h', (c, t)) => firstn 4 h' = h /\ c = rfc8998_ct /\ t = rfc8998_tag
+  | _ => False
+  end.
+Proof. vm_compute. repeat split; repeat constructor. Qed.
